@@ -474,6 +474,7 @@ func firstCogFrame() string {
 	pcs := make([]uintptr, 64)
 	n := runtime.Callers(3, pcs)
 	frames := runtime.CallersFrames(pcs[:n])
+	first := ""
 	for {
 		fr, more := frames.Next()
 		if strings.HasPrefix(fr.Function, "github.com/grafana/cog/") &&
@@ -482,11 +483,23 @@ func firstCogFrame() string {
 			// strip generic instantiation noise and closures numbering
 			fn = regexp.MustCompile(`\[[^\]]*\]`).ReplaceAllString(fn, "")
 			fn = regexp.MustCompile(`\.func[0-9.]+$`).ReplaceAllString(fn, "")
-			return fn
+			if first != "" {
+				return first + " < " + fn
+			}
+			// an IR accessor (Type.AsStruct, ...) says nothing about the call
+			// site: name its caller too
+			if strings.HasPrefix(fn, "internal/ast.Type.") || strings.HasPrefix(fn, "internal/tools.") || strings.HasPrefix(fn, "internal/orderedmap.") {
+				first = fn
+			} else {
+				return fn
+			}
 		}
 		if !more {
 			break
 		}
+	}
+	if first != "" {
+		return first
 	}
 	return "?"
 }
